@@ -161,7 +161,9 @@ CHECKS = {
                  "the multiset the line-by-line codec emits sequentially (plus range points and feature record); a rejected line or read error must "
                  "fail the compilation; with no fault pending it must terminate (a state with nothing enabled and no timer is a deadlock). Thorough "
                  "tier: 1 in 30 runs compiles 70000-100000 records on real parallelism with the hooks in perturbation mode so that the bulk loader "
-                 "splits into several buckets. Non-trivial = more than 3 lines; distinct = schedule hash + file seed."),
+                 "splits into several buckets; 1 run in 12 (both tiers) compiles 1500-4000 records in batch mode (batch size 5/20/40, parallelism 0/2/4/8) free-running on four "
+                 "real threads, so that many small batches sharing hot keys are in flight and interleavings finer than the yield points are reached. "
+                 "Non-trivial = more than 3 lines; distinct = schedule hash + file seed."),
         "components": {
             "real": ["dnsdata.ParseStream / parse (scanner, worker pool)", "dnsdata/cdb.CreateCDBFromReader + go-cdb writer", "rdb.Compile: compileBuilder "
                      "(Builder, buckets, SST ingestion) and compileBatches (parallel ExecuteBatch under writeMutex)", "subnet rearranger (Accum.MarshalMap)", "RocksDB (cgo)"],
@@ -171,7 +173,7 @@ CHECKS = {
         },
         "assumptions": ["which blocked parser worker receives a line is the Go runtime's choice: replay is 'same verdict for the same scenario', the oracle is schedule-insensitive",
                         "conflicting duplicate subnets (ill-formed, order dependent) are not generated"],
-        "required_probes": {"quick": ["multi_value_keys", "free_running_big_file"], "thorough": ["multi_value_keys", "free_running_big_file"]},
+        "required_probes": {"quick": ["multi_value_keys", "free_running_big_file", "free_running_parallel_batches"], "thorough": ["multi_value_keys", "free_running_big_file", "free_running_parallel_batches"]},
     },
     "C08": {
         "test": "TestC08",
